@@ -323,6 +323,27 @@ func c07Shapes() []c07Shape {
 				return stopLossModel(noLossModel(w[0], c), c, pct)
 			},
 			safe: stopLossSafe},
+		c07Shape{name: "stoploss(stoploss) tighter outside", k: 1,
+			build: func(subs []strategy.Strategy, pct float64) strategy.Strategy {
+				return decorator.NewStopLossStrategy(decorator.NewStopLossStrategy(subs[0], pct), pct*0.4)
+			},
+			model: func(w [][]strategy.Action, c []float64, pct float64) []strategy.Action {
+				return stopLossModel(stopLossModel(w[0], c, pct), c, pct*0.4)
+			}},
+		c07Shape{name: "stoploss(stoploss) tighter inside", k: 1,
+			build: func(subs []strategy.Strategy, pct float64) strategy.Strategy {
+				return decorator.NewStopLossStrategy(decorator.NewStopLossStrategy(subs[0], pct*0.4), pct)
+			},
+			model: func(w [][]strategy.Action, c []float64, pct float64) []strategy.Action {
+				return stopLossModel(stopLossModel(w[0], c, pct*0.4), c, pct)
+			}},
+		c07Shape{name: "noloss(noloss)", k: 1,
+			build: func(subs []strategy.Strategy, _ float64) strategy.Strategy {
+				return decorator.NewNoLossStrategy(decorator.NewNoLossStrategy(subs[0]))
+			},
+			model: func(w [][]strategy.Action, c []float64, _ float64) []strategy.Action {
+				return noLossModel(noLossModel(w[0], c), c)
+			}},
 		c07Shape{name: "inverse(noloss)", k: 1,
 			build: func(subs []strategy.Strategy, _ float64) strategy.Strategy {
 				return decorator.NewInverseStrategy(decorator.NewNoLossStrategy(subs[0]))
@@ -457,13 +478,13 @@ func c07(ctx *run.Ctx) {
 							words[i] = decodeWord(c%pow3(n), n)
 							c /= pow3(n)
 						}
-						needCloses := sh.safe != nil || sh.name == "inverse(noloss)"
+						needCloses := sh.safe != nil || sh.name == "inverse(noloss)" || sh.name == "noloss(noloss)" || strings.HasPrefix(sh.name, "stoploss(stoploss)")
 						for ci, closes := range c07Closes {
 							if !needCloses && ci > 0 {
 								break
 							}
 							for pi, pct := range pcts {
-								if (sh.name != "stoploss" && sh.name != "noloss(stoploss)" && sh.name != "stoploss(noloss)") && pi > 0 {
+								if (sh.name != "stoploss" && sh.name != "noloss(stoploss)" && sh.name != "stoploss(noloss)" && !strings.HasPrefix(sh.name, "stoploss(stoploss)")) && pi > 0 {
 									break
 								}
 								cc.Desc(map[string]any{"shape": sh.name, "words": fmt.Sprint(words), "closes": ci, "pct": pct})
@@ -501,7 +522,7 @@ func c07(ctx *run.Ctx) {
 				}
 				closes := gen.Field(gen.Bars(cc.R, []string{gen.Walk, gen.Walk2, gen.Ties, gen.Plateau}[cc.R.Intn(4)], n), 'c')
 				// different currency units: the decorators must not depend on the price level
-				unit := cc.R.PickF(1, 1, 1e-3, 1e3, 1.0/128)
+				unit := cc.R.PickF(1, 1, 1e-3, 1e3, 1.0/128, 0x1p-40, 0x1p40) // down to a unit in which a price is below any "small number"
 				for i := range closes {
 					closes[i] *= unit
 				}
